@@ -196,6 +196,87 @@ func VH_C10(p []int) {
 	if ucap > 0 {
 		verifAssert(len(final) <= ucap, "capacity-never-exceeded")
 	}
+	// no element is lost, duplicated or fabricated (checked for combinations of
+	// Push / Pop / Insert / Remove, which only move elements in and out)
+	moveOnly := true
+	for t := 0; t < T; t++ {
+		for j := 0; j < k; j++ {
+			if ops[t][j].code > 3 {
+				moveOnly = false
+			}
+		}
+	}
+	if moveOnly {
+		var seen []any
+		for _, v := range final {
+			seen = append(seen, v)
+		}
+		for t := 0; t < T; t++ {
+			for j := 0; j < k; j++ {
+				// a value handed back counts as accounted for, whatever the flag says
+				if c := ops[t][j].code; (c == 1 || c == 3) && res[t][j].v != nil {
+					seen = append(seen, res[t][j].v)
+				}
+			}
+		}
+		conserved := true
+		// every value observed is one that was put in, and at most once
+		for i, v := range seen {
+			known := false
+			for _, w := range init {
+				if vhSame(v, w) {
+					known = true
+				}
+			}
+			for t := 0; t < T; t++ {
+				for j := 0; j < k; j++ {
+					if c := ops[t][j].code; (c == 0 || c == 2) && vhSame(v, ops[t][j].val) {
+						known = true
+					}
+				}
+			}
+			if !known {
+				conserved = false
+			}
+			for l := i + 1; l < len(seen); l++ {
+				if vhSame(v, seen[l]) {
+					conserved = false
+				}
+			}
+		}
+		// every initial element is still somewhere
+		for _, w := range init {
+			found := false
+			for _, v := range seen {
+				if vhSame(v, w) {
+					found = true
+				}
+			}
+			if !found {
+				conserved = false
+			}
+		}
+		// without a capacity every pushed / successfully inserted value is somewhere
+		if ucap == 0 {
+			for t := 0; t < T; t++ {
+				for j := 0; j < k; j++ {
+					c := ops[t][j].code
+					if c == 0 || (c == 2 && res[t][j].ok) {
+						found := false
+						for _, v := range seen {
+							if vhSame(v, ops[t][j].val) {
+								found = true
+							}
+						}
+						if !found {
+							conserved = false
+						}
+					}
+				}
+			}
+		}
+		verifAssert(conserved, "conservation")
+	}
 	// serializability
 	serial := false
 	for _, order := range vhOrders(T, k) {
